@@ -1,10 +1,11 @@
 """C10 - lookup returns exactly the matching recordings, identically on all cassettes."""
 import datetime
 import json
+import random
 
 from lib import pyvals as pv
 from lib.gallina import gZ, gnat, glist, gopt, gstr, gpair, gbool
-from props.c14 import spec_match
+from props.c14 import spec_match, has_class_pattern
 
 ID = "C10"
 RUN_MODULE = "RunC10"
@@ -18,7 +19,11 @@ RULE = ("one case = one history of saves (categories Op/OpX/Op_Y/O/Op_ or, every
         "himself, limit, ordered/real-RNG/scripted-RNG listing, S3 key prefix, optional time window, through "
         "iter_recording_ids or find_matching_recording_ids with skip_incomplete on/off); deterministic streams: prefix "
         "categories x key prefixes, layout-literal categories x key prefixes x (plain / filter / window), flag values x "
-        "lookups, caller's flag filters x default lookup, day folders x limits x merge schedules; non-trivial = the lookup "
+        "lookups, caller's flag filters x default lookup, day folders x limits x merge schedules, string filters that are "
+        "fnmatch patterns with character classes / ranges / negations / brackets made literal (alone, as a list "
+        "alternative, next to another key) x stored texts that match, do not match or ARE the pattern text x plain / "
+        "default lookup x key prefixes, plus random histories of short texts looked up with random patterns over the "
+        "alphabet ab1[]!-*?x; non-trivial = the lookup "
         "selects a non-empty proper subset of the stored recordings; distinct = distinct (history, lookup)")
 EXHAUSTIVE = {"quick": False, "thorough": False}
 ASSUMPTIONS = [
@@ -33,6 +38,10 @@ ASSUMPTIONS = [
     "prefixes are exercised as decoys on the implementation side (with a category called 'metadata' only those "
     "siblings whose root is not inside this cassette's root: layout_decoys)",
 ]
+ASSUMPTIONS.append(
+    "fnmatch on two strings is an oracle in the theorems (section variable glob); in the runs the model side uses "
+    "Cassette.GlobClass.glob_fn (fnmatch.translate of CPython 3.12 incl. character classes; equals the simple instance "
+    "on bracket-free patterns: glob_fn_simple) and the direct predicate uses Python's own fnmatch (c14.spec_match)")
 TRUSTED = ["fake bucket behind the real S3BasicFacade; fake clock; uuid.uuid1 replaced by the case's hex text; "
            "scripted RNG (shuffle = reverse, choice = scripted index) for random:2 cases",
            "harness-side re-statement of the lookup meaning (expected) used as direct predicate, with c14.spec_match"]
@@ -66,6 +75,18 @@ def layout_decoys(kp):
     with a category called 'metadata' the sibling prefix 'metadata' of the empty prefix would be inside the root."""
     return [d for d in DECOYS.get(kp, []) if not s3_root(d).startswith(s3_root(kp))]
 CLASS_NAMES = {1: "lib.pyvals.OpaqueA", 2: "lib.pyvals.OpaqueB"}
+
+# string filter values are fnmatch patterns (tape_cassette.py _match_metadata_value): besides * and ? they may hold
+# character classes [seq], negations [!seq], ranges [a-c] and brackets that make a metacharacter literal ([[], []], [*],
+# [?]); an opening bracket without a closing one is a literal.  REGIONS = stored values that match some of the patterns,
+# values that match none, and the pattern texts themselves (a pattern is not a literal: 'eu-west-[12]' does not select
+# the recording whose value is the text 'eu-west-[12]')
+REGIONS = ["eu-west-1", "eu-west-2", "eu-west-3", "us-east-1", "eu-west-[12]", "ax", "bx", "cx", "[!a]x", "a[1]", "a*", "a?",
+           "ab", "-", "]", "[a-", "eu-west-12", "EU-WEST-1", "Bx", "xbx"]      # longer / other case / match inside only
+PATTERNS = ["eu-west-[12]", "eu-west-[!12]", "eu-west-[1-2]", "eu-west-[3-9]", "eu-*-[12]", "eu-west-[[]12]", "e[tu]-west-?",
+            "[!a]x", "[a-b]x", "[!a-b]x", "a[[]1[]]", "a[*]", "a[?]", "a[!*]", "[]-]", "[!]]", "[a-", "us-east-[1]",
+            "[ue][us]-*"]
+PAT_ALPHABET = "ab1[]!-*?x"
 
 ATOMS = [pv.none(), pv.b(True), pv.b(False), pv.i(0), pv.i(1), pv.i(2), pv.fl(3, 2), pv.s(""), pv.s("a"), pv.s("ab"),
          pv.s("a*"), pv.s("?b"), pv.lst([]), pv.lst([pv.i(1)]), pv.dct([("x", pv.i(1))])]
@@ -232,6 +253,64 @@ def targeted(rng):
     return out
 
 
+def pattern_stream():
+    """Deterministic: every pattern of PATTERNS as a string filter (alone, as one alternative of a list, next to an
+    ordinary key) against recordings holding REGIONS, through iter_recording_ids and the default lookup, on every
+    cassette; key prefixes in rotation."""
+    u = ["%032x" % (0xdef0 + i) for i in range(len(REGIONS) + 4)]
+    h = []
+    for i, r in enumerate(REGIONS):
+        meta = [["region", pv.s(r)], ["tenant", pv.s("ab"[i % 2])]]
+        if i % 3 == 0:
+            meta.append([INC, pv.b(False)])
+        h.append(dict(cat="Op", uuid=u[i], ct=i * H, t=i * H, meta=meta))
+    n = len(REGIONS)
+    h.append(dict(cat="OpX", uuid=u[n], ct=n * H, t=n * H, meta=[["region", pv.s("eu-west-1")]]))           # other category
+    h.append(dict(cat="Op", uuid=u[n + 1], ct=(n + 1) * H, t=(n + 1) * H, meta=[["tenant", pv.s("a")]]))    # key absent
+    h.append(dict(cat="Op", uuid=u[n + 2], ct=(n + 2) * H, t=(n + 2) * H, meta=[["region", pv.i(1)]]))      # not a string
+    h.append(dict(cat="Op", uuid=u[n + 3], ct=(n + 3) * H, t=(n + 3) * H,
+                  meta=[["region", pv.s("eu-west-2")], [INC, pv.b(True)]]))                                  # incomplete
+    out = []
+    for k, p in enumerate(PATTERNS):
+        forms = [[["region", pv.s(p)]],
+                 [["region", pv.lst([pv.s("us-east-1"), pv.s(p)])]],
+                 [["tenant", pv.s("[!b]")], ["region", pv.s(p)]]]
+        for f in forms:
+            for skip, lim in ((None, None), (True, None), (None, 1)):
+                out.append(dict(hist=h, kp=KPS[k % len(KPS)], cat="Op", filter=f, limit=lim, random=0, sched=[0], seed=0,
+                                start=None, end=None, now=(n + 5) * H, skip=skip))
+    return out
+
+
+def rand_pattern(rng):
+    if rng.random() < 0.5:
+        return rng.choice(PATTERNS)
+    return "".join(rng.choice(PAT_ALPHABET) for _ in range(rng.randrange(1, 7)))
+
+
+def pattern_cases(rng, tier):
+    """Random histories whose metadata holds short texts over the pattern alphabet, looked up with pattern filters."""
+    out = []
+    n_hist, n_q = (8, 10) if tier == "quick" else (80, 16)
+    for k in range(n_hist):
+        hist = rand_hist(rng)
+        for e in hist:
+            if rng.random() < 0.85:
+                r = rng.choice(REGIONS) if rng.random() < 0.5 else \
+                    "".join(rng.choice("ab1[]!-x") for _ in range(rng.randrange(0, 4)))
+                e["meta"] = [kv for kv in e["meta"] if kv[0] != "region"] + [["region", pv.s(r)]]
+        for _ in range(n_q):
+            q = rand_query(rng, hist)
+            f = [kv for kv in (q["filter"] or []) if kv[0] != "region"][:1]
+            v = pv.s(rand_pattern(rng))
+            if rng.random() < 0.3:
+                v = pv.lst([v, rng.choice([pv.none(), pv.s(rand_pattern(rng)), pv.i(1)])])
+            f.insert(rng.randrange(len(f) + 1), ["region", v])
+            q.update(hist=hist, kp=KPS[k % len(KPS)], filter=f)
+            out.append(q)
+    return out
+
+
 CAT_IDS = [("Op/ab12", None), ("Op_Y/0123", None), ("Op/20200227/ab12", "Op"), ("Op_Y/20200301/ffff", "Op_Y"),
            ("Op_/20200301/0", "Op_"), ("O/1/2", "O"), ("Op", None), ("Op/", None), ("/a/b", None), ("a/b/", None),
            ("a//b", None), ("a/b/c/d", "a"), ("", None), ("/", None), ("//", None), ("///", None), ("a/b//", "a"),
@@ -255,6 +334,9 @@ def generate(rng, tier):
             cases.append(q)
     for i, exp in CAT_IDS:
         cases.append(dict(kind="cat", id=i, expect=exp))
+    prng = random.Random(rng.random())      # own stream: the cases above are those of the earlier rounds
+    cases += pattern_stream()
+    cases += pattern_cases(prng, tier)
     return cases
 
 
@@ -453,6 +535,8 @@ def features(case):
          "window=" + ("none" if case["start"] is None and case["end"] is None else
                       "start" + ("+end" if case["end"] is not None else "") if case["start"] is not None else "end-only"),
          "filter=" + ("none" if not case["filter"] else "+".join(sorted(v["t"] for _, v in case["filter"])))}
+    if any(has_class_pattern(v) for _, v in (case["filter"] or [])):
+        f.add("filter-pattern-with-character-class")
     if any(e["ct"] != e["t"] or sum(1 for x in case["hist"] if x["uuid"] == e["uuid"]) > 1 for e in case["hist"]):
         f.add("history-with-resave")
     if not all(native(v) for e in case["hist"] for _, v in e["meta"]):
@@ -513,7 +597,9 @@ MANIFEST = dict(
          'recordings whose incomplete flag is True. Models tied to /repo on every run by histories x lookups on the '
          'three real cassettes (fake bucket behind the real S3BasicFacade, scratch directory, fake clock/uuid, '
          'scripted or real RNG); direct predicate (subset, exact category, filter, count, no duplicates, fetchable, '
-         'cassettes agree, skip-incomplete) on the implementation.',
+         'cassettes agree, skip-incomplete) on the implementation; string filters are checked against the documented '
+         'fnmatch meaning including character classes, ranges, negations and literal brackets on all three cassettes '
+         '(model side: a Gallina transcription of fnmatch.translate, direct predicate: Python fnmatch).',
     note='Trusted: Coq kernel + vm_compute; hand-written models of the three iter_recording_ids, iter_keys, '
          'find_matching_recording_ids; the C14 matcher model; strftime/listdir/shuffle/choice/uuid as oracles; '
          'correspondence harness. limit=0 divergence (no limit on memory/file, nothing on S3) is an observation.',
